@@ -90,18 +90,26 @@ fn dedup(n: &Node, keep_first: bool) -> Node {
 
 /// pre-order index (over all nodes, keys included) of the key node that is the first repeated
 /// key in document order, on the ORIGINAL doc (aliases compared through their expansion).
-/// None = no repeated key. The bool tells whether the repeat lies inside replayed (aliased) content
-/// or involves an alias, in which case only the error kind is judged.
-fn first_duplicate(doc: &Node, expanded: &Node) -> Option<(usize, bool)> {
+/// None = no repeated key. The second component: `Exact` = the repeated key is written in place;
+/// `AliasKey` = the repeated key is an alias token (`*k: v`), whose position is the position of
+/// the repeated key; `InReplay` = the repeat lies inside replayed (aliased) content, where only
+/// the error kind is judged.
+#[derive(Clone, Copy, PartialEq, Eq, Debug)]
+enum Where {
+    Exact,
+    AliasKey,
+    InReplay,
+}
+fn first_duplicate(doc: &Node, expanded: &Node) -> Option<(usize, Where)> {
     // walk doc and expanded in parallel; `idx` counts doc nodes in pre-order
-    fn walk(d: &Node, e: &Node, idx: &mut usize, found: &mut Option<(usize, bool)>) {
+    fn walk(d: &Node, e: &Node, idx: &mut usize, found: &mut Option<(usize, Where)>) {
         let my = *idx;
         let _ = my;
         *idx += 1;
         if let Kind::Alias(_) = &d.kind {
             // duplicates inside the replayed copy: detect on the expansion, position unknown
             if found.is_none() && has_dup(e) {
-                *found = Some((0, true));
+                *found = Some((0, Where::InReplay));
             }
             return;
         }
@@ -117,7 +125,7 @@ fn first_duplicate(doc: &Node, expanded: &Node) -> Option<(usize, bool)> {
                     let key_idx = *idx;
                     let is_alias_key = matches!(dk.kind, Kind::Alias(_));
                     if found.is_none() && seen.iter().any(|s| gdoc::same_key(s, ek)) {
-                        *found = Some((key_idx, is_alias_key));
+                        *found = Some((key_idx, if is_alias_key { Where::AliasKey } else { Where::Exact }));
                     }
                     seen.push(ek);
                     // keys are captured, not streamed: duplicates inside a key are not judged
@@ -213,7 +221,7 @@ fn check_case(c: &Case) -> Outcome {
             }
             Outcome::Pass
         }
-        Some((key_idx, inexact)) => {
+        Some((key_idx, wh)) => {
             // --- Error policy
             match &r_err {
                 Res::Ok(v) => return Outcome::Fail(format!("Error policy accepted a repeated key as {v:?} (text {text:?})")),
@@ -221,7 +229,7 @@ fn check_case(c: &Case) -> Outcome {
                     if !*is_dup {
                         return Outcome::Fail(format!("Error policy failed with another error than DuplicateMappingKey: {m} (text {text:?})"));
                     }
-                    if !inexact {
+                    if wh != Where::InReplay {
                         let info = &r.nodes[key_idx];
                         let ok = (info.start.line as u64 == *l && info.start.col as u64 == *col) || (info.content.line as u64 == *l && info.content.col as u64 == *col);
                         if !ok {
@@ -383,11 +391,18 @@ impl Property for C04 {
     fn assumptions() -> Vec<String> {
         vec![
             "no merge keys in these documents (C03) and no repeated keys inside a key node".into(),
-            "for a repeated key that is an alias, or lies inside replayed (aliased) content, only the error kind is judged, not its location".into(),
+            "for a repeated key that lies inside replayed (aliased) content only the error kind is judged, not its location; a repeated key that is itself an alias token is expected at the alias (open finding c04-alias-key-location: the definition site is reported)".into(),
         ]
     }
     fn check(c: &Case) -> Outcome {
         check_case(c)
+    }
+    fn signatures(c: &Case) -> Vec<&'static str> {
+        // open finding: the first repeated key is an alias token
+        match gdoc::expand_aliases(&c.doc) {
+            Ok(e) if matches!(first_duplicate(&c.doc, &e), Some((_, Where::AliasKey))) => vec!["repeated_alias_key"],
+            _ => vec![],
+        }
     }
     fn shrink(c: &Case) -> Vec<Case> {
         let mut out = vec![];
